@@ -11,6 +11,7 @@ import (
 	"github.com/ipfs/go-cid"
 	carv2 "github.com/ipld/go-car/v2"
 	"github.com/multiformats/go-multicodec"
+	mh "github.com/multiformats/go-multihash"
 )
 
 // indexlessV2 lays a payload out as a CARv2 without index (IndexOffset = 0), independently of go-car.
@@ -39,13 +40,25 @@ func famC10(g *Gen, o *Out, n int, thorough bool) {
 			maxB = 10
 		}
 		bs := g.Blocks(maxB)
+		if c%4 == 1 || c%4 == 3 {
+			// a valid CARv1 may carry an identity CID longer than the index's CID size limit: with
+			// StoreIdentityCIDs off it is simply not indexed, and wrapping must still succeed
+			d := make([]byte, 2100+c)
+			for i := range d {
+				d[i] = byte((i + c) % 251)
+			}
+			h, _ := mh.Sum(d, mh.IDENTITY, -1)
+			at := len(bs) / 2
+			bs = append(bs[:at:at], append([]Blk{{cid.NewCidV1(cid.Raw, h), d}}, bs[at:]...)...)
+		}
 		o.HashBlocks(bs)
 		roots := g.Roots(bs)
 		x := writeAll(roots, bs, true) // a valid CARv1
 		// --- WrapV1
 		codec := []string{"mh", "sorted"}[g.pick(2)]
 		sid := g.pick(2) == 0
-		wopts := []carv2.Option{carv2.StoreIdentityCIDs(sid), carv2.MaxIndexCidSize(1 << 20)}
+		mcs := []uint64{1 << 20, 2048, 1 << 20, 64}[c%4]
+		wopts := []carv2.Option{carv2.StoreIdentityCIDs(sid), carv2.MaxIndexCidSize(mcs)}
 		if codec == "sorted" {
 			wopts = append(wopts, carv2.UseIndexCodec(multicodec.CarIndexSorted))
 		}
@@ -66,7 +79,7 @@ func famC10(g *Gen, o *Out, n int, thorough bool) {
 		if err == nil {
 			res = "r=ok out=" + hexOr(wrapped.Bytes())
 		}
-		o.Line(fmt.Sprintf("xform op=wrap codec=%s sid=%d z=%d mcs=1048576 roots=%s blocks=%s in=%s", codec, b2i(sid), z, rootsArg(roots),
+		o.Line(fmt.Sprintf("xform op=wrap codec=%s sid=%d z=%d mcs=%d roots=%s blocks=%s in=%s", codec, b2i(sid), z, mcs, rootsArg(roots),
 			blocksStr(bs), hex.EncodeToString(x)), res)
 		o.Count("wrap/" + codec)
 		// --- WrapV1File: the same transform through the file API, onto an absent, a larger and a
